@@ -47,7 +47,8 @@ def scenario(sc, tmproot, chooser_factory):
     S.chooser = chooser_factory(rng, sc)
     pat, B, sr, sw, ch = sc["pat"], sc["B"], sc["sr"], sc["sw"], sc["ch"]
     mn, mx, sl, drop, strict = sc["p"]
-    data, nsamp = synth(pat, B, sc.get("tail", B), sw, ch)
+    energy = sc.get("validator") == "energy" and ch > 1
+    data, nsamp = synth(pat, B, sc.get("tail", B), sw, ch, quiet_channels=(1,) if energy else ())
     bps = sw * ch
     blocks = []
 
@@ -106,8 +107,29 @@ def scenario(sc, tmproot, chooser_factory):
         S.qnames[id(saver._inbox)] = "saver"
         src = saver
     w = B / sr
+    vkw = {"validator": val}
+    patched_val = None
+    if energy:
+        # split() builds the energy validator itself from the keyword arguments the worker forwards; every alias spelling
+        # must reach it (C12: the worker's detections equal what split() returns for the same parameters)
+        from .split import ETH
+        Base = core.AudioEnergyValidator
+        patched_val = Base
+
+        class LoggingEnergyValidator(Base):
+            def is_valid(self_, d):
+                v = bool(Base.is_valid(self_, d))
+                judged[0] += 1
+                sched.SCHED.note(pt="V", v=v)
+                return v
+        core.AudioEnergyValidator = LoggingEnergyValidator
+        vkw = {sc.get("eth_name", "energy_threshold"): ETH}
+        if sc.get("uc", "absent") != "absent":
+            vkw[sc.get("uc_name", "use_channel")] = sc["uc"]
     tw = W.TokenizerWorker(src, observers, min_dur=(mn - 0.5) * w, max_dur=(mx + 0.5) * w, max_silence=(sl + 0.5) * w,
-                           drop_trailing_silence=drop, strict_min_dur=strict, validator=val)
+                           drop_trailing_silence=drop, strict_min_dur=strict, **vkw)
+    if patched_val is not None:
+        core.AudioEnergyValidator = patched_val
     tw._ctl_name = "tok"
     S.qnames[id(tw._inbox)] = "tok"
     stop_after = sc["stop_after"]
@@ -134,7 +156,8 @@ def scenario(sc, tmproot, chooser_factory):
     status = sched.run_main(main, max_steps=sc.get("max_steps", 6000))
     # ---- projection of what can be observed at the end -----------------------------------------
     nread = len(blocks)
-    stream = [bool(pat[k]) if k < len(pat) else False for k in range(nread)]
+    heard = not (energy and sc.get("uc") in (1, -1))       # channel 1 is the quiet one
+    stream = [bool(pat[k]) and heard if k < len(pat) else False for k in range(nread)]
     dets = []
     for d in tw.detections:
         first = round(d.start * sr)
@@ -561,7 +584,12 @@ def rand_scenario(rng, tier, prop):
         fr = (__import__("fractions").Fraction(str(silence)) * sr) % 1
         if abs(fr - __import__("fractions").Fraction(1, 2)) >= __import__("fractions").Fraction(1, 20):
             break
-    return dict(pat=pat, B=B, sr=sr, silence=silence, sw=sw, ch=ch, p=(mn, mx, sl, rng.random() < .3, rng.random() < .3), obs=kinds,
+    venergy = rng.random() < .3
+    if venergy and ch == 1:
+        ch = 2
+    extra = dict(validator="energy" if venergy else "custom", uc=rng.choice(["absent", None, 0, 1, -1, "mix", "any", -2]),
+                 uc_name=rng.choice(["use_channel", "uc"]), eth_name=rng.choice(["energy_threshold", "eth"]))
+    return dict(extra, pat=pat, B=B, sr=sr, silence=silence, sw=sw, ch=ch, p=(mn, mx, sl, rng.random() < .3, rng.random() < .3), obs=kinds,
                 saver=saver, cache_blocks=rng.choice([0, 1, 2, 3, 1000]), stop_after=stop, tail=rng.choice([B, rng.randint(1, B)]),
                 seed=rng.random(), style=rng.choice(["random", "random", "prio", "timeout_storm", "slow_source", "slow_observers", "slow_saver"]))
 
